@@ -451,6 +451,40 @@ type modTargets struct {
 	keys   []string
 	all    bool
 	cells  []*Val // pointer values whose pointee is modified (precise)
+	fobjs  []fobj // single fields of single objects (precise)
+}
+
+// fobj: the entry `base` of heap kind `key` (one field of one object, or one pointer cell).
+type fobj struct{ key, base string }
+
+// cellObjs lists the (heap kind, object) entries that a store through pointer p (pointee type t) writes: what a
+// `modifies *p` designator allows, on both sides of a call.
+func (e *Engine) cellObjs(st *State, p *Val, t types.Type) []fobj {
+	if p.Addr != nil {
+		if p.Addr.Kind == "field" {
+			return []fobj{{p.Addr.Key, p.Addr.Base}}
+		}
+		return nil // element addresses etc.: kind-wide (see callers)
+	}
+	var out []fobj
+	var rec func(ref string, t types.Type)
+	rec = func(ref string, t types.Type) {
+		if _, ok := t.Underlying().(*types.Struct); !ok {
+			out = append(out, fobj{e.keyCell(e.reg.sortOf(t)), ref})
+			return
+		}
+		ss := e.reg.structSort(t)
+		info := e.reg.structs[ss]
+		for i := range info.Fields {
+			if _, nested := info.FTypes[i].Underlying().(*types.Struct); nested {
+				rec(e.fieldRef(st, ref, i), info.FTypes[i])
+				continue
+			}
+			out = append(out, fobj{e.keyField(ss, i), ref})
+		}
+	}
+	rec(p.T, t)
+	return out
 }
 
 func (e *Engine) resolveMods(ctx *EvalCtx, mods []string) (*modTargets, error) {
@@ -543,7 +577,7 @@ func (e *Engine) resolveMods(ctx *EvalCtx, mods []string) (*modTargets, error) {
 							mt.keys = append(mt.keys, k)
 						}
 					} else {
-						mt.keys = append(mt.keys, e.keyField(ss, i))
+						mt.fobjs = append(mt.fobjs, fobj{e.keyField(ss, i), b.T})
 					}
 				}
 			}
@@ -578,6 +612,15 @@ func (e *Engine) havocModifies(st *State, ctx *EvalCtx, mods []string) error {
 		if _, ok := e.hsorts[k]; ok {
 			e.heapHavoc(st, k)
 		}
+	}
+	for _, fo := range mt.fobjs {
+		// one field of one object: only that entry becomes arbitrary
+		hs := e.heapSort(fo.key)
+		es := strings.TrimSuffix(strings.TrimPrefix(hs, "(Array Int "), ")")
+		nv := st.fresh("fld", es)
+		st.assume(e.wfVal(st, nv, es))
+		e.heapSet(st, fo.key, sto(e.heapGet(st, st.heap, fo.key), fo.base, nv))
+		delete(st.facts, fo.key+"@"+fo.base)
 	}
 	for _, p := range mt.cells {
 		pt := p.Typ.Underlying().(*types.Pointer)
